@@ -16,7 +16,7 @@ RULE = ('seeded generator: complex pupil fields 2..20 per side, integers N_r, N_
 ASSUMPTIONS = ['1/alpha is an integer number of samples on each axis (commensurate sampling), as the property states']
 PLAN = {'quick': {'gen': 8}, 'thorough': {'gen': 16, 'tests': 1, 'docs': 1}}
 REQUIRED_BUCKETS = ['N:rect', 'N:square', 'dx:aniso', 'dx:iso', 'os=1', 'os=2', 'os=3', 'N:odd', 'N:even', 'fft', 'dft',
-                    'nested', 'normalize_power', 'normalize_power:small-int', 'normalize_power:narrow-float', 'fft:any-period', 'fft:period%os!=0', 'amp:signed']
+                    'nested', 'normalize_power', 'normalize_power:small-int', 'normalize_power:narrow-float', 'amp:extreme-magnitude', 'fft:any-period', 'fft:period%os!=0', 'amp:signed']
 REQUIRED_ANCHORS = ['probe:propagate_dft', 'probe:propagate_fft', 'anchor:_fft2', 'anchor:normalize_power',
                     'anchor:dft2']
 REQUIRED_ORACLES = ['dft:full-period', 'fft:full-period', 'nested:monotone', 'intensity>=0', 'normalize_power',
@@ -111,6 +111,10 @@ def workload(ctx, lentil):
         du = (wl * z / (dx[0] * Nr), wl * z / (dx[1] * Nc))
         A = gen.support(rng, shape)
         amp = gen.amplitude(rng, A) * float(rng.uniform(0.1, 10))
+        if i % 8 == 5:
+            # faint or bright beams: conservation is relative to the input power, whatever its magnitude
+            amp = amp * float(10 ** rng.uniform(-14, -7)) if i % 16 == 5 else amp * float(10 ** rng.uniform(5, 12))
+            ctx.bucket('amp:extreme-magnitude')
         if (amp < 0).any():
             ctx.bucket('amp:signed')
         opd = gen.opd(rng, shape, wl, smooth=False)
@@ -285,7 +289,7 @@ def workload(ctx, lentil):
         elif kindp == 4:
             # very small powers (absolute tolerances must not matter)
             a = a * 1e-6
-            p = float(10 ** rng.uniform(-12, -8))
+            p = float(10 ** rng.uniform(-26, -8))
         desc = {'normalize_power': list(shape), 'p': p, 'complex': bool(np.iscomplexobj(a))}
         ctx.case(desc, ['normalize_power'], nontrivial=a.size > 1)
         b = lentil.normalize_power(a, p) if p != 1 or rng.random() < 0.5 else lentil.normalize_power(a)
@@ -295,7 +299,7 @@ def workload(ctx, lentil):
                   'normalize_power(a, p) does not have power p', desc, scale=p)
         ctx.close('normalize_power', b * np.sqrt(np.sum(np.abs(af) ** 2) / p), af, 1e-12, 'normalize_power|direction',
                   'normalize_power changed more than the overall scale', desc, scale=float(np.abs(af).max()))
-        if i % 4 == 0 and not np.iscomplexobj(a) and min(shape) >= 2:
+        if (i % 4 == 0 or kindp == 4) and not np.iscomplexobj(a) and min(shape) >= 2:
             wl, z, dx0 = 6e-7, 5.0, 1e-3
             N = max(shape) + 3
             du = wl * z / (dx0 * N)
